@@ -74,6 +74,19 @@ pub fn rand_shape(rng: &mut Rng, star: bool, graphs: bool) -> Vec<Q> {
         let g = rng.pick(&gs).clone();
         push(&mut d, ([s, p, o], g));
     }
+    // sometimes several values of ONE subject and predicate that share their lexical form and differ in datatype / language only
+    if rng.chance(1, 5) {
+        let s = if rng.chance(1, 2) { b(0) } else { iri("http://ex/a") };
+        let g = rng.pick(&gs).clone();
+        let lex = *rng.pick(&["1", "true", "abc"]);
+        let variants: Vec<ST> = vec![
+            lit_dt(lex, &format!("{XSD}string")), lit_dt(lex, &format!("{XSD}integer")), lit_dt(lex, &format!("{XSD}boolean")), lit_dt(lex, &format!("{XSD}double")),
+            lit_dt(lex, "urn:dt"), lit_lang(lex, "en"), lit_lang(lex, "fr"), iri(&format!("http://ex/{lex}")),
+        ];
+        for _ in 0..2 + rng.below(3) {
+            push(&mut d, ([s.clone(), iri("http://ex/p"), rng.pick(&variants).clone()], g.clone()));
+        }
+    }
     // sometimes a well-formed list hanging from a node
     if rng.chance(1, 3) {
         let len = 1 + rng.below(2);
